@@ -275,6 +275,11 @@ Proof.
   destruct R as [|x R]; [cbn; destruct b; reflexivity|].
   cbn [Nat.add firstn skipn app]. rewrite IH. reflexivity.
 Qed.
+Lemma nth_skipn' {A} (l : list A) d : forall n i, nth i (skipn n l) d = nth (n + i) l d.
+Proof.
+  induction l as [|x l IH]; intros n i; [rewrite skipn_nil; destruct i, n; reflexivity|].
+  destruct n as [|n]; [reflexivity|]. cbn [skipn Nat.add nth]. apply IH.
+Qed.
 Lemma map_fst_offsets_from l : forall e,
   map fst (offsets_from e l) = map (fun j => e + N.of_nat j) (seq 0 (length l)).
 Proof.
@@ -332,7 +337,7 @@ Proof.
   assert (Hx : exists Y, firstn (length news - j) (skipn (N.to_nat e0) R) = nth (N.to_nat e0) (d_recs d) zero_rec :: Y).
   { assert (Ls : (length news <= length (skipn (N.to_nat e0) R))%nat) by (rewrite skipn_length; lia).
     assert (En : nth (N.to_nat e0) (d_recs d) zero_rec = nth 0 (skipn (N.to_nat e0) R) zero_rec).
-    { rewrite nth_skipn, Nat.add_0_r. subst R. unfold cover. destruct (d_cap d); [reflexivity|].
+    { rewrite nth_skipn', Nat.add_0_r. subst R. unfold cover. destruct (d_cap d); [reflexivity|].
       cbn [d_recs]. symmetry. apply nth_grown, Hs. }
     rewrite En. destruct (skipn (N.to_nat e0) R) as [|x Y]; [cbn in Ls; lia|].
     destruct (length news - j)%nat as [|q] eqn:Q; [lia|]. cbn [firstn nth]. eexists. reflexivity. }
